@@ -37,8 +37,12 @@ C14 == X.stopped => (Ended /\ Delivered /\ FileOK /\ X.joined_ok)
 LogPairs == [k \in 1..Len(X.log) |-> <<X.log[k][1], X.log[k][2]>>]
 X03 == X.haslog => (/\ \A k \in 1..Len(X.log) : X.log[k][3] = 1
                     /\ LogOK(LogPairs, N, X.processed, {X.loggers[k] : k \in 1..Len(X.loggers)}))
+\* X06 (observation): a run whose source raised -- what WorkersCrash describes: without a stop the natural end never comes when anybody
+\* waits for a stop marker; with stop_all() everything ends; what was delivered before is a prefix of the detections
+X06 == X.crashed => /\ \A o \in 1..Len(X.processed) : ObsPrefixOK(X.processed[o], N)
+                    /\ IF X.stopped THEN Ended ELSE ((X.p.nobs > 0 \/ X.p.saver) => ~Ended)
 Bit(b) == IF b THEN 0 ELSE 1
-Mon == TLCSet(i, 1 + Bit(C12) + 2 * Bit(C13) + 4 * Bit(C14) + 8 * Bit(X03))
+Mon == TLCSet(i, 1 + Bit(C12) + 2 * Bit(C13) + 4 * Bit(C14) + 8 * Bit(X03) + 16 * Bit(X06))
 ASSUME \A t \in 1..Len(Runs) : TLCSet(t, 0)
 Post == \A t \in 1..Len(Runs) : PrintT(ToJson(<<"TRACE", t, TLCGet(t), 1>>))
 =============================================================================
